@@ -57,7 +57,10 @@ with ThreadPoolExecutor(max_workers=int(os.environ.get('SELFTEST_JOBS', '3'))) a
             first = expect[name][0]
             verdict = 'caught' if res[first]['exit'] == 1 else 'MISSED by ' + first
         print('%-34s %-22s %s' % (name, verdict, ' '.join('%s=%d%s' % (c, v['exit'], ('[' + ','.join(v['clauses'])[:60] + ']') if v['clauses'] else '') for c, v in res.items())), flush=True)
-json.dump(results, open(os.path.join(VERIF, 'mutants', 'RESULTS.json'), 'w'), indent=1, sort_keys=True)
+rp = os.path.join(VERIF, 'mutants', 'RESULTS.json')
+merged = json.load(open(rp)) if os.path.exists(rp) else {}
+merged.update(results)
+json.dump(merged, open(rp, 'w'), indent=1, sort_keys=True)
 bad = [n for n, r in results.items() if 'error' in r or (os.path.basename(n).startswith('ok_') and any(v['exit'] != 0 for v in r.values()))
        or (not os.path.basename(n).startswith('ok_') and 'error' not in r and r[expect[n][0]]['exit'] != 1)]
 print('self-test: %d patches, %d not as expected' % (len(results), len(bad)))
